@@ -459,6 +459,7 @@ func C19(e *core.Env) int {
 		}
 	}
 	c19WrongKind(e, rep, bin, root)
+	c19GroupOrder(e, rep, bin, root)
 	c19Custom(e, rep, bin, root, rand.New(rand.NewSource(e.Seed*7+3)), tierN(e, 30, 400))
 	return rep.Finish()
 }
@@ -625,4 +626,34 @@ var (
 		rep.NonTrivial("custom|" + cases[i].name)
 	}
 	rep.Extra["custom_function_layouts"] = len(cases)
+}
+
+// c19GroupOrder: a marked `type ( ... )` block has two attached doc comments (the block's and the type's); their
+// goverter: lines are applied in source order, so the later line wins for settings that overwrite each other.
+func c19GroupOrder(e *core.Env, rep *core.Report, bin, root string) {
+	progs := map[string][2]string{
+		// name -> source, struct name expected in the output
+		"block_then_type": {"// goverter:converter\n// goverter:name First\ntype (\n\t// goverter:name Second\n\tX interface{ M(source int) int }\n)\n", "Second"},
+		"type_only":       {"// goverter:converter\ntype (\n\t// goverter:name OnlyType\n\tX interface{ M(source int) int }\n)\n", "OnlyType"},
+		"block_only":      {"// goverter:converter\n// goverter:name OnlyBlock\ntype (\n\t// X converts.\n\tX interface{ M(source int) int }\n)\n", "OnlyBlock"},
+		"one_comment":     {"// goverter:converter\n// goverter:name First\n// goverter:name Second\ntype X interface{ M(source int) int }\n", "Second"},
+	}
+	var names []string
+	for n := range progs {
+		names = append(names, n)
+	}
+	sort.Strings(names)
+	for _, n := range names {
+		dir := filepath.Join(root, "g_"+n)
+		os.MkdirAll(dir, 0o755)
+		os.WriteFile(filepath.Join(dir, "input.go"), []byte("package w\n\n"+progs[n][0]), 0o644)
+		gr := runGen(e, bin, dir, dir, []string{"gen", "."}, nil)
+		rep.Evaluations++
+		body := gr.Files["generated/generated.go"]
+		if gr.Exit != 0 || !strings.Contains(body, "type "+progs[n][1]+" struct") {
+			rep.Violation(&core.Viol{Kind: "source_order", Case: "group_" + n, Summary: fmt.Sprintf("settings of the two doc comments of a marked type block are not applied in source order (want struct %s, exit %d)", progs[n][1], gr.Exit), Detail: progs[n][0] + "\n" + gr.Stderr + "\n" + body, Dir: dir, Tags: []string{"grouporder:" + n}})
+			continue
+		}
+		rep.NonTrivial("grouporder|" + n)
+	}
 }
